@@ -4,8 +4,9 @@ set -e
 cd "$(dirname "$0")"
 export CARGO_NET_OFFLINE=true
 export MIMALLOC_PURGE_DELAY=-1
+python3 tools/gen_glue.py
 python3 tools/extract.py || true
 (cd lean && lake build Chewing chewing-model)
-cp /repo/Cargo.lock harness/Cargo.lock
+cp "${VERIF_REPO:-/repo}/Cargo.lock" harness/Cargo.lock
 (cd harness && cargo build --offline --quiet)
 echo setup done
